@@ -112,8 +112,7 @@ def run_case(case):
             fcls, icls = type(fwd), type(inv)
             f2, i2 = fcls(J=J, wave=sib, mode=msp), icls(wave=sib, mode=msp)
             xw = torch.ones([1, 2] + size, requires_grad=True)
-            o_ = f2(xw)
-            i2((o_[0], list(o_[1]))).sum().backward()
+            core.libcall(lambda: i2((lambda o_: (o_[0], list(o_[1])))(f2(xw))).sum().backward())
             try:
                 f2.load_state_dict(fwd.state_dict())
                 i2.load_state_dict(inv.state_dict())
